@@ -9,6 +9,10 @@ from vlib.ref import dft as rdft
 from vlib.ref import plane_model as pm
 from vlib.runner import Violation
 
+# the check's own calls are issued with keywords or positionally in the documented order (vlib/callforms.py)
+from vlib import callforms as _cf
+lentil = _cf.proxy(lentil)
+
 
 def as_ps(v):
     """pixel scale argument as given to lentil (scalar or tuple)"""
